@@ -33,7 +33,8 @@ from holopy.core.metadata import (
     dict_to_array
 )
 from holopy.core.utils import ensure_array
-from holopy.scattering.scatterer import Sphere, Spheres, Spheroid, Cylinder
+from holopy.scattering.scatterer import (
+    Scatterer, Sphere, Spheres, Spheroid, Cylinder)
 from holopy.scattering.errors import (
     AutoTheoryFailed, MissingParameter, InvalidScatterer
 )
@@ -98,6 +99,8 @@ def interpret_theory(scatterer, theory='auto'):
 
 
 def validate_scatterer(scatterer):
+    if not isinstance(scatterer, Scatterer):
+        raise InvalidScatterer(scatterer, "It is not a Scatterer object.")
     mapper = Mapper()
     scatterer_map = mapper.convert_to_map(scatterer.parameters)
     guesses = [par.guess for par in mapper.parameters]
